@@ -429,7 +429,7 @@ func runCtor(c Ctor) (vk.Outcome, error) {
 	// stream constructors under an already-cancelled context: the call fails with that context's error and
 	// costs nothing (the items are still all there afterwards); stream.Error reports its error forever.
 	if c.Kind == "Chan" || c.Kind == "FromIterator" {
-		cctx, cancel := context.WithCancel(context.Background())
+		cctx, cancel := sk.WithCancel(context.Background())
 		cancel()
 		var s stream.Stream[int]
 		if c.Kind == "Chan" {
